@@ -18,6 +18,7 @@ RULE = ('Invalid requests of every documented kind (negative amount, over-withdr
         ' Also requests timed between a portfolio clock and the later clock of one of its positions (direct Portfolio transactions / marks, broker updates), and transfers/orders while the broker clock is behind a portfolio clock.')
 RULE += " Composite pf_mark_ahead: a valid direct Portfolio mark of one held asset at a time ahead of the broker clock, then a broker update to an instant in between (must be refused with nothing re-marked). Directed scripts with the library's own BacktestDataHandler over one or two CSV sources whose first source quotes a held asset negative on one day (optionally another held asset without any data, booked before or after): the update must raise ValueError and change nothing."
 RULE += " Refusals are also compared on each holding's own mark (price and the time it carries)."
+RULE += ' 30% of the real-handler scripts use a market-neutral book (short q and long q at one price: market value exactly 0.0).'
 ASSUMPTIONS = [
     'portfolio/broker clocks are not listed observables: a refused request may advance them',
     'an ExecutionHandler call is a composite (submit accepted, update refused) and is not judged as one request',
